@@ -258,7 +258,7 @@ def check_no_cancelled_running(prev: View, cur: View):
     fails = []
     for k, j in cur.jobs.items():
         p = prev.jobs.get(k) if prev is not None else None
-        if j['state'] in ('Creating', 'Running') and (p is None or p['state'] not in ('Creating', 'Running')):
+        if j['state'] in ('Creating', 'Running') and (p is None or p['state'] != j['state']):
             was_cancelled = p is not None and prev.job_cancelled(p)
             if was_cancelled:
                 fails.append(('cancelled-job-started', 'a cancelled job that is not always-run is never moved into creating or running',
